@@ -88,6 +88,63 @@ func c01SeedWork(c *engine.Ctx) {
 	}
 }
 
+// c01Families: inputs that the atom enumerations and edit balls do not reach.
+//   - every kind of expression in every position where the JSON conversion looks at it (the tree must survive
+//     String, JS, JSON and Walk without a panic whether or not it is JSON)
+//   - syntax errors on long lines of single- and multi-byte characters (the error's context is built inside the call)
+func c01Families(c *engine.Ctx) {
+	jsp := c.SpaceByName("js-parse")
+	exprs := []string{"a", "1", "-1", "1.5e3", "0x10", "1n", "'s'", "\"d\"", "`t`", "`a${b}c`", "/r/g", "true", "false", "null", "this", "undefined",
+		"[]", "[1,2]", "[,1]", "[1,,]", "[...a]", "({})", "({a:1})", "({'a':1})", "({1:2})", "({[k]:1})", "({a})", "({...a})", "({a(){}})", "({get a(){return 1}})", "({set a(v){}})",
+		"({async a(){}})", "({*a(){}})", "({async*a(){}})", "({a:function(){}})", "({a:()=>1})", "({a:class{}})", "({a:1,b(){},c:2})", "function(){}", "function*g(){}", "async function(){}",
+		"()=>1", "a=>a", "async()=>1", "async a=>a", "class{}", "class A extends B{static #p=1;m(){}}", "a.b", "a[b]", "a?.b", "a?.[b]", "a()", "a(...b)", "a?.()", "new A", "new A(1)", "import.meta", "import('m')",
+		"a`t`", "a++", "--a", "!a", "-a", "+a", "~a", "typeof a", "void 0", "delete a.b", "await a", "a+b", "a**b", "a&&b", "a??b", "a in b", "a instanceof b", "a?b:c", "a=b", "a+=b", "a??=b", "(a,b)", "(a)", "((1))", "-(1)", "- -1", "[[[]]]", "({a:{b:{c:[]}}})"}
+	wraps := []string{"%s", "(%s)", "[%s]", "[1,%s,2]", "({\"k\":%s})", "({k:%s,l:1})", "[{\"k\":[%s]}]", "({k:{l:%s}})", "-%s", "x=%s", "%s;%s"}
+	k := 0
+	for _, e := range exprs {
+		for _, w := range wraps {
+			k++
+			if !c.Mine(k) {
+				continue
+			}
+			src := strings.ReplaceAll(w, "%s", e)
+			for _, o := range jsOptionNames {
+				in := append(make([]byte, 0, len(src)+1), src...)
+				c.Exec(jsp, in, map[string]string{"opts": o})
+				c.Count("exec", 1)
+				c.Count("json-shaped-programs", 1)
+			}
+			c.Count("distinct_nontrivial", 1)
+		}
+	}
+	counts := []int{0, 1, 10, 19, 20, 21, 30, 57, 60, 63, 64, 65, 100}
+	for _, tm := range longLineTemplates() {
+		spaces := []string{tm.space}
+		if tm.space == "css-parse" {
+			spaces = append(spaces, "css-lex")
+		}
+		cfgs := cfgsFor(spaces)
+		for _, ch := range longLineChars {
+			for _, np := range counts {
+				for _, nt := range counts {
+					k++
+					if !c.Mine(k) {
+						continue
+					}
+					doc := tm.doc(strings.Repeat(ch, np), strings.Repeat(ch, nt))
+					for _, cf := range cfgs {
+						in := append(make([]byte, 0, len(doc)+1), doc...)
+						c.Exec(c.SpaceByName(cf.space), in, cf.args)
+						c.Count("exec", 1)
+						c.Count("long-line-documents", 1)
+					}
+					c.Count("distinct_nontrivial", 1)
+				}
+			}
+		}
+	}
+}
+
 // ---- nesting ----
 
 type nestTpl struct {
